@@ -205,7 +205,7 @@ Definition proj_err (e : err) : string :=
 
 (* ---------------- the initial environment ---------------- *)
 Definition host_names : list (string * nat) :=
-  [("probe", 0); ("probe2", 1); ("hvar", 2); ("hpair", 3); ("hpanic", 4); ("hnone", 5); ("hfix3", 6); ("hzero", 7)]%string.
+  [("probe", 0); ("probe2", 1); ("hvar", 2); ("hpair", 3); ("hpanic", 4); ("hnone", 5); ("hfix3", 6); ("hzero", 7); ("hid", 8)]%string.
 
 Definition init_store : store :=
   mkStore [mkScope None (map (fun '(n, h) => (n, Imm (VHost h))) host_names) [] None] [] [] [] [] 0.
